@@ -208,3 +208,113 @@ Proof.
 Qed.
 
 Print Assumptions b64_plus_is_fl.
+
+(* ---------------------------------------------------------------- the quotient by the elapsed seconds
+   The rate |dx| / dt is NOT exact in binary64.  But `rate > threshold` is decided correctly whenever the exact
+   rate is not above the threshold, or is above it by at least one ulp of the threshold: rounding is monotone and
+   the threshold and its successor are binary64 numbers. *)
+From Flocq Require Import Ulp.
+
+Lemma ulp64_pos x : 0 < ulp radix2 fexp64 x.
+Proof.
+  destruct (Req_dec x 0) as [->|Zx].
+  - unfold fexp64. rewrite ulp_FLT_0 by reflexivity. apply bpow_gt_0.
+  - rewrite ulp_neq_0 by exact Zx. apply bpow_gt_0.
+Qed.
+
+Theorem gt_threshold_exact (thr q : R) :
+  generic_format radix2 fexp64 thr ->
+  (q <= thr \/ thr + ulp radix2 fexp64 thr <= q) ->
+  (thr < fl q <-> thr < q).
+Proof.
+  intros Ft Hq.
+  assert (V : Valid_exp fexp64) by (apply FLT_exp_valid; reflexivity).
+  assert (M : Monotone_exp fexp64) by (apply FLT_exp_monotone).
+  assert (Fl_thr : fl thr = thr) by (apply round_generic; [apply valid_rnd_N|exact Ft]).
+  split; intros H.
+  - destruct Hq as [Hq|Hq].
+    + exfalso. assert (fl q <= fl thr) by (apply round_le; [exact V|apply valid_rnd_N|exact Hq]). lra.
+    + pose proof (ulp64_pos thr). lra.
+  - destruct Hq as [Hq|Hq]; [lra|].
+    assert (S1 : succ radix2 fexp64 thr <= q).
+    { apply Rle_trans with (2 := Hq). apply succ_le_plus_ulp. exact M. }
+    assert (S2 : fl (succ radix2 fexp64 thr) <= fl q) by (apply round_le; [exact V|apply valid_rnd_N|exact S1]).
+    assert (S3 : fl (succ radix2 fexp64 thr) = succ radix2 fexp64 thr).
+    { apply round_generic; [apply valid_rnd_N|]. apply generic_format_succ; assumption. }
+    assert (S4 : thr < succ radix2 fexp64 thr).
+    { destruct (Req_dec thr 0) as [->|Zt].
+      - rewrite succ_0. apply ulp64_pos.
+      - apply succ_gt_id. exact Zt. }
+    lra.
+Qed.
+
+(* rate_of_change_test on the grid: numerator dx = grid k m (an exact difference, fl_sub_exact), elapsed whole
+   seconds 1 <= n <= 2^20, threshold on the same grid and below 2^(32-k) in magnitude:
+   the rounded quotient exceeds the threshold exactly when the rational quotient does *)
+Theorem roc_compare_exact (k m mt n : Z) :
+  (0 <= k <= 1000)%Z -> (Z.abs mt < 2 ^ 32)%Z -> (1 <= n <= 2 ^ 20)%Z ->
+  (grid k mt < fl (Rabs (grid k m) / IZR n) <-> grid k mt < Rabs (grid k m) / IZR n).
+Proof.
+  intros Hk Bt Hn.
+  apply gt_threshold_exact; [apply format_grid; lia|].
+  set (q := Rabs (grid k m) / IZR n). set (thr := grid k mt).
+  destruct (Rle_or_lt q thr) as [L|G]; [left; exact L|right].
+  (* q - thr >= 2^-(k+20) >= ulp thr *)
+  assert (Pn : 0 < IZR n) by (apply IZR_lt; lia).
+  assert (Pk : 0 < bpow radix2 (- k)) by apply bpow_gt_0.
+  assert (Gap : bpow radix2 (- k - 20) <= q - thr).
+  { unfold q, thr. rewrite grid_abs. unfold grid.
+    (* (|m| - mt n) / (n 2^k) with a positive integer numerator *)
+    assert (Num : (1 <= Z.abs m - mt * n)%Z).
+    { assert (Lt : IZR (mt * n) < IZR (Z.abs m)).
+      { unfold q, thr in G. rewrite grid_abs in G. unfold grid in G.
+        rewrite mult_IZR.
+        apply Rmult_lt_reg_r with (bpow radix2 (- k) / IZR n).
+        - apply Rdiv_lt_0_compat; assumption.
+        - replace (IZR mt * IZR n * (bpow radix2 (- k) / IZR n)) with (IZR mt * bpow radix2 (- k)) by (field; lra).
+          replace (IZR (Z.abs m) * (bpow radix2 (- k) / IZR n)) with (IZR (Z.abs m) * bpow radix2 (- k) / IZR n) by (field; lra).
+          exact G. }
+      apply lt_IZR in Lt. lia. }
+    replace (IZR (Z.abs m) * bpow radix2 (- k) / IZR n - IZR mt * bpow radix2 (- k))
+      with (IZR (Z.abs m - mt * n) * (bpow radix2 (- k) / IZR n)).
+    2:{ rewrite minus_IZR, mult_IZR. field. lra. }
+    assert (Inv : bpow radix2 (- 20) <= / IZR n).
+    { change (bpow radix2 (- 20)) with (/ IZR (2 ^ 20)). apply Rinv_le_contravar; [exact Pn|apply IZR_le; lia]. }
+    replace (- k - 20)%Z with (- k + - 20)%Z by lia. rewrite bpow_plus.
+    assert (N1 : 1 <= IZR (Z.abs m - mt * n)) by (apply IZR_le; exact Num).
+    unfold Rdiv.
+    assert (P20 : 0 < bpow radix2 (- 20)) by apply bpow_gt_0.
+    set (a := bpow radix2 (- k)) in *. set (b := bpow radix2 (- 20)) in *. set (c := / IZR n) in *.
+    set (N := IZR (Z.abs m - mt * n)) in *.
+    assert (T1 : a * b <= a * c) by (apply Rmult_le_compat_l; lra).
+    assert (T2 : 0 <= a * c) by (apply Rmult_le_pos; lra).
+    assert (T3 : a * c <= N * (a * c)) by (rewrite <- (Rmult_1_l (a * c)) at 1; apply Rmult_le_compat_r; assumption).
+    lra. }
+  assert (U : ulp radix2 fexp64 thr <= bpow radix2 (- k - 20)).
+  { destruct (Z.eq_dec mt 0) as [->|Nz].
+    - unfold thr, grid. rewrite Rmult_0_l. unfold fexp64. rewrite ulp_FLT_0 by reflexivity.
+      apply bpow_le. lia.
+    - assert (A1 : bpow radix2 (- k) <= Rabs thr).
+      { unfold thr. rewrite grid_abs. unfold grid. rewrite <- (Rmult_1_l (bpow radix2 (- k))) at 1.
+        apply Rmult_le_compat_r; [lra|]. apply IZR_le. lia. }
+      assert (A2 : Rabs thr <= bpow radix2 (32 - k)).
+      { unfold thr. rewrite grid_abs. unfold grid. replace (32 - k)%Z with (32 + - k)%Z by lia. rewrite bpow_plus.
+        apply Rmult_le_compat_r; [lra|]. change (bpow radix2 32) with (IZR (2 ^ 32)). apply IZR_le. lia. }
+      apply Rle_trans with (Rabs thr * bpow radix2 (1 - 53)).
+      + unfold fexp64. apply ulp_FLT_le.
+        apply Rle_trans with (2 := A1). apply bpow_le. lia.
+      + apply Rle_trans with (bpow radix2 (32 - k) * bpow radix2 (1 - 53)).
+        * apply Rmult_le_compat_r; [apply bpow_ge_0|exact A2].
+        * rewrite <- bpow_plus. apply bpow_le. lia. }
+  lra.
+Qed.
+
+(* |fl (dx / n)| = fl (|dx| / n): the code takes the absolute value after the division *)
+Theorem abs_after_division (dx : R) (n : Z) : (0 < n)%Z -> Rabs (fl (dx / IZR n)) = fl (Rabs dx / IZR n).
+Proof.
+  intros Hn. unfold fl. rewrite <- round_NE_abs by (apply FLT_exp_valid; reflexivity).
+  f_equal. unfold Rdiv. rewrite Rabs_mult. f_equal. apply Rabs_pos_eq.
+  left. apply Rinv_0_lt_compat. apply IZR_lt. exact Hn.
+Qed.
+
+Print Assumptions roc_compare_exact.
